@@ -172,6 +172,9 @@ func runPolicy(in, outdir string) {
 				switch e.Ev {
 				case "reset":
 					now = e.Now
+					if now < 0 {
+						vh.Die("negative instant %d", now)
+					}
 					rn.fresh(now)
 					tr.Add(vh.Ev{"ev": "reset", "now": now, "dom": at(now).Day()})
 				case "adv":
@@ -263,6 +266,9 @@ func runFlows(in, outdir string) {
 				switch e.Ev {
 				case "reset":
 					now = e.Now
+					if now < 0 {
+						vh.Die("negative instant %d", now)
+					}
 					eng, err = c01eng.New(dir, at(now), eng)
 					if err != nil {
 						vh.Die("engine: %v", err)
